@@ -70,16 +70,24 @@ def hexVal (c : Char) : Option Nat :=
   else if 'A' ≤ c ∧ c ≤ 'F' then some (c.toNat - 55)
   else none
 
-partial def bytesOfHexChars : List Char → Option (List UInt8)
-  | [] => some []
-  | a :: b :: rest => do
-    let x ← hexVal a
-    let y ← hexVal b
-    let r ← bytesOfHexChars rest
-    pure (UInt8.ofNat (x * 16 + y) :: r)
-  | _ => none
+def hexValByte (b : UInt8) : Option Nat :=
+  if 48 ≤ b ∧ b ≤ 57 then some (b.toNat - 48)
+  else if 97 ≤ b ∧ b ≤ 102 then some (b.toNat - 87)
+  else if 65 ≤ b ∧ b ≤ 70 then some (b.toNat - 55)
+  else none
 
-def bytesOfHex (s : String) : Option (List UInt8) := bytesOfHexChars s.toList
+/-- hex decoding as a loop (messages of several megabytes occur in the thorough tier) -/
+def bytesOfHex (s : String) : Option (List UInt8) := Id.run do
+  let b := s.toUTF8
+  if b.size % 2 != 0 then return none
+  let mut out : Array UInt8 := Array.mkEmpty (b.size / 2)
+  let mut i := 0
+  while i + 1 < b.size do
+    match hexValByte b[i]!, hexValByte b[i+1]! with
+    | some x, some y => out := out.push (UInt8.ofNat (x * 16 + y))
+    | _, _ => return none
+    i := i + 2
+  return some out.toList
 
 def utf8OfBytes (bs : List UInt8) : String :=
   match String.fromUTF8? (ByteArray.mk bs.toArray) with
